@@ -169,8 +169,10 @@ def simplify(body, max_rounds=40, max_blocks=4000):
             ok = all(_pure_link(blocks[b]["t"], -1) for b in path[:-1])
             if not ok:
                 continue
-            # loop header? (a predecessor reachable from the join)  - refuse
-            if _reaches(blocks, si, jb):
+            # the chain join..S is straight-line (pure links, no block twice), so duplicating it per predecessor is tail
+            # duplication even when it lies inside a loop body: each copy is entered from one predecessor whose last
+            # assignment to x is the known aggregate found by walking that predecessor's own unique-predecessor chain
+            if len(set(path)) != len(path):
                 continue
             ps = list(dict.fromkeys(pr[jb]))
             known = {}
@@ -253,7 +255,7 @@ def _reaches(blocks, src, dst, limit=5000):
     return False
 
 
-def split_returns(body, max_chain=16, max_preds=8, max_blocks=4000):
+def split_returns(body, max_chain=16, max_preds=48, max_blocks=6000):
     """tail-duplicate straight-line code that ends in an assignment to the return place and is reached from a join, so that
     every way of producing the result is an exit block of its own (what `?` after an inlined helper merges, the plain
     early-return form keeps apart)."""
